@@ -18,8 +18,8 @@ static int hexv(int c) { return c <= '9' ? c - '0' : (c | 32) - 'a' + 10; }
 static char *unhex(const char *h) { if (!strcmp(h, "-")) return strdup(""); size_t n = strlen(h) / 2; char *s = malloc(n + 1); for (size_t i = 0; i < n; i++) s[i] = (char)(hexv(h[2 * i]) * 16 + hexv(h[2 * i + 1])); s[n] = 0; return s; }
 static char **g_argv;
 static int one(const char *name, const char *arg, size_t size, long *Lout) {
-    char *buf = malloc(size); buf[0] = '\0';          /* the caller's contract: first byte cleared */
-    if (size > 1) memset(buf + 1, 0x5a, size - 1);
+    char *buf = malloc(size);
+    memset(buf, 0x5a, size);                          /* nothing in the buffer is a NUL beforehand: the terminator must be the data source's own (also when it fails or has nothing to say) */
     int r = snoopy_datasourceregistry_callByName(name, buf, size, arg);
     int term = memchr(buf, 0, size) != NULL;
     *Lout = term ? (long)strlen(buf) : -1;
@@ -51,6 +51,10 @@ int main(int argc, char **argv) {
             else { for (int i = 3; i < nt; i++) { cnt++; if (!one(tok[1], arg, (size_t)atol(tok[i]), &L)) { ok = 0; badsize = (size_t)atol(tok[i]); break; } if (L > Lmax) Lmax = L; } }
             printf("%s %s %s sizes=%ld maxlen=%ld terminated=%d badsize=%zu\n", tok[0], tok[1], tok[2], cnt, Lmax, ok, badsize);
             free(arg);
+        } else if (!strcmp(tok[0], "failstate")) {
+            /* a process state in which data sources FAIL or have nothing to say: working directory removed, no stdin, empty environment */
+            char d[64]; snprintf(d, sizeof d, "gone-%d", (int)getpid()); mkdir(d, 0755); if (chdir(d) || rmdir(d) ? 0 : 1) {} { char up[80]; snprintf(up, sizeof up, "../%s", d); rmdir(up); }
+            close(0); clearenv(); printf("failstate ok\n");
         } else if (!strcmp(tok[0], "filter")) {
             char *arg = unhex(tok[2]); int r = snoopy_filterregistry_callByName(tok[1], arg); printf("filter %s %s ret=%d\n", tok[1], tok[2], r); free(arg);
         }
